@@ -151,4 +151,39 @@ def gstep (g : List (List α)) : HOp α → Option (List (List α))
     let C := (g.head?.map List.length).getD 0
     if col < C then some (gridPerm g (sortRowsG (stablePerm le (g.filterMap (·[col]?))))) else some g
 
+/-! ### element flow of one operation (for the conservation law C05 over histories) -/
+
+/-- the elements one operation takes from the caller (`supplied`) and the elements that leave the array during it
+    (`removed`: handed to the caller through a drain or back in the unconsumed iterator, dropped by the crate, or leaked) -/
+def hflow (m : Mode) (t : TD α) : HOp α → List α × List α
+  | .fromVec c r v => match TD.fromVec c r v with | .ok _ => (v, t.data) | .error _ => (v, v)
+  | .insertRow i it spare =>
+    let o := t.insertRow m histCap i it spare
+    (it.events.filterMap id, o.leaked ++ o.rest.filterMap id)
+  | .insertCol i it spare =>
+    let o := t.insertCol m histCap i it spare
+    (it.events.filterMap id, o.leaked ++ o.rest.filterMap id)
+  | .removeRow i => match t.removeRow m i with | .ok d => ([], d.items) | .error _ => ([], [])
+  | .removeCol i =>
+    match t.removeCol m i with
+    | .ok d => (match d.drop m with | .ok (_, dropped) => ([], dropped) | .error _ => ([], []))
+    | .error _ => ([], [])
+  | .popRow => match t.popRow m with | .ok (some d) => ([], d.items) | _ => ([], [])
+  | .popCol =>
+    match t.popCol m with
+    | .ok (some d) => (match d.drop m with | .ok (_, dropped) => ([], dropped) | .error _ => ([], []))
+    | _ => ([], [])
+  | .clear => ([], t.data)
+  | .fill x => (List.replicate t.data.length x, t.data)          -- one clone per cell; every old cell is dropped
+  | .copyFromSlice src => match t.copyFromSlice src with | .ok _ => (src, t.data) | .error _ => ([], [])
+  | _ => ([], [])                                                 -- pure permutations, capacity calls, swap_dimensions
+
+/-- the elements supplied / removed over a whole history -/
+def hflowRun (m : Mode) : TD α → List (HOp α) → List α × List α
+  | _, [] => ([], [])
+  | t, op :: ops =>
+    let f := hflow m t op
+    let rest := hflowRun m (hstep m t op) ops
+    (f.1 ++ rest.1, f.2 ++ rest.2)
+
 end Toodee
